@@ -52,6 +52,18 @@ type RefServer struct {
 	srv                 *httptest.Server
 	// statistics for the evidence
 	UploadRoundTrips, Packfiles int
+	// fault: the next FailRefs listings of the refs are answered with FailRefsStatus (a 5xx)
+	FailRefs, FailRefsStatus int
+	// what the clients asked for: the number of ref listings answered or refused, and every ref update
+	// of the first request of each receive-pack session, as sent (before any decision of this server)
+	RefsListings   int
+	UpdateRequests []RefUpdateRequest
+}
+
+// RefUpdateRequest is one ref update as a pushing client asked for it.
+type RefUpdateRequest struct {
+	Ref      string
+	Old, New []byte // nil = absent
 }
 
 func NewRefServer(db objects.Store, rs ref.Store, maxPackfileSize uint64, denyNonFF bool) *RefServer {
@@ -84,6 +96,19 @@ func writeJSON(w http.ResponseWriter, v interface{}) {
 }
 
 func (s *RefServer) handleRefs(w http.ResponseWriter, r *http.Request) {
+	s.mu.Lock()
+	s.RefsListings++
+	if s.FailRefs > 0 {
+		s.FailRefs--
+		st := s.FailRefsStatus
+		s.mu.Unlock()
+		if st < 500 {
+			st = http.StatusServiceUnavailable
+		}
+		http.Error(w, "listing refs: backend unavailable", st)
+		return
+	}
+	s.mu.Unlock()
 	prefixes := r.URL.Query()["prefix"]
 	notPrefixes := r.URL.Query()["notprefix"]
 	m, err := ref.ListAllRefs(s.rs)
@@ -234,6 +259,16 @@ func (s *RefServer) handleReceivePack(w http.ResponseWriter, r *http.Request) {
 			// first request: validate every update against the current refs
 			ses = &receiveSession{updates: req.Updates}
 			s.receive[id] = ses
+			for name, u := range req.Updates {
+				q := RefUpdateRequest{Ref: name}
+				if u.OldSum != nil {
+					q.Old = append([]byte{}, (*u.OldSum)[:]...)
+				}
+				if u.Sum != nil {
+					q.New = append([]byte{}, (*u.Sum)[:]...)
+				}
+				s.UpdateRequests = append(s.UpdateRequests, q)
+			}
 			refused := false
 			for name, u := range req.Updates {
 				cur, err := ref.GetRef(s.rs, strings.TrimPrefix(name, "refs/"))
